@@ -22,7 +22,8 @@ PREFIXES = ["p", "q", "x-y", "ns1", "xsi", "s"]
 URIS = ["urn:one", "urn:two", "http://example.org/ns#x", "http://u/?a=1&b=2", "urn:x:it's", "http://u/p?q='1'&r=(2)",
         "http://www.w3.org/2001/XMLSchema-instance", "https://eml.ecoinformatics.org/eml-2.2.0"]   # valid URI references (lxml refuses others)
 SPECIALS = ["<", ">", "&", '"', "'", "]]>", "é", "漢字", "😀", "&amp;", "&#38;", "<!--", "-->", "<?x?>", "\\", "\x85", " ", "�", "a b",
-            "{0}", "{id}", "}", "{", "{{x}}", "%s", "%(a)s", "$1", "\\1", "&quot;", "&apos;", "&nbsp;", "&copy;", "&#x26;", "&;", "&amp", "&lt", "%26", "<![CDATA[", "&#0;"]     # text that merely SPELLS a reference
+            "{0}", "{id}", "}", "{", "{{x}}", "%s", "%(a)s", "$1", "\\1", "&quot;", "&apos;", "&nbsp;", "&copy;", "&#x26;", "&;", "&amp", "&lt", "%26", "<![CDATA[", "&#0;",
+            "e\u0301", "\u212b", "\u1100\u1161", "a[b[0]]>c", "]]", "]]]]><![CDATA[>"]     # text that merely SPELLS a reference
 
 
 def rvalue(rnd, attr=False):
@@ -170,10 +171,47 @@ def w_eml(seeds):
     return evs
 
 
+# element names an exporter might be tempted to treat specially, crossed with every special text: the text handling of an
+# exporter may not depend on what the element is called
+GRID_NAMES = NAMES + ["markdown", "literalLayout", "objectName", "attributeName", "literalCharacter", "metadata", "additionalMetadata", "references", "value",
+                      "emphasis", "markup", "inline", "citetitle", "ulink", "description"]
+
+
+def w_grid(idx):
+    from metapype.eml import export
+    from metapype.model import metapype_io
+    evs = []
+    for i in idx:
+        name = GRID_NAMES[i // len(SPECIALS)]
+        sp = SPECIALS[i % len(SPECIALS)]
+        for eml in (False, True):
+            if eml and any(x in sp for x in ("&amp;", "&lt;", "&gt;", "<para>", "</para>")):
+                continue          # the documented workaround: outside the quantifier of the EML exporter
+            Node.store.clear()
+            root = Node("dataset" if eml else "r")
+            x = Node(name, content=[sp, "a" + sp + "b", sp + sp][i % 3])
+            x.add_attribute("id", sp.replace("\t", " ").replace("\n", " "))
+            root.add_child(Node("title", content="t"))
+            root.add_child(x)
+            if not eml:
+                x.tail = "t" + sp
+            t = xmlobs.tree_proj(root)
+            desc = {"exporter": "export.to_xml" if eml else "metapype_io.to_xml", "grid": [name, sp]}
+            try:
+                text = export.to_xml(root) if eml else metapype_io.to_xml(root)
+            except Exception as e:  # noqa: BLE001
+                evs.append({"op": "failed", "raised": type(e).__name__, "desc": desc})
+                continue
+            raw = wellformed_twice(text)
+            evs.append({"op": "export_eml" if eml else "export", "wf": raw is not None, "raw": xmlobs.raw_split(raw) if raw else 0, "tree": t, "desc": desc})
+    return evs
+
+
 def run(rep, tier, seed):
     n = 600 if tier == "quick" else 20000
     evs = [e for chunk in parallel(w_general, [seed * 4256233 + i for i in range(n)]) for e in chunk]
     evs += [e for chunk in parallel(w_eml, [seed * 86028121 + i for i in range(n)]) for e in chunk]
+    evs += [e for chunk in parallel(w_grid, range(len(GRID_NAMES) * len(SPECIALS))) for e in chunk]
     judged = [e for e in evs if e["op"] != "failed"]
     for e in evs:
         if e["op"] == "failed":
